@@ -15,6 +15,7 @@ package c13
 import (
 	"encoding/json"
 	"fmt"
+	"os"
 	"runtime"
 	"sort"
 	"strings"
@@ -93,14 +94,23 @@ func go9pQuiescent(recvFn string) bool {
 			}
 		}
 		if !blocked {
+			if os.Getenv("C13_DEBUG") != "" {
+				fmt.Fprintf(os.Stderr, "not quiescent:\n%s\n", blk)
+			}
 			return false
 		}
-		if strings.Contains(blk, recvFn) {
+		if strings.Contains(blk, "\ngithub.com/rminnich/"+recvFn+"(") { // a frame, not a "created by" line
 			if !strings.Contains(head, "[sync.Cond.Wait") || !strings.Contains(blk, "xport.(*half).read") {
+				if os.Getenv("C13_DEBUG") != "" {
+					fmt.Fprintf(os.Stderr, "receive loop not parked in the transport:\n%s\n", blk)
+				}
 				return false
 			}
 			parked = true
 		}
+	}
+	if !parked && os.Getenv("C13_DEBUG") != "" {
+		fmt.Fprintf(os.Stderr, "no receive loop found in %d bytes of stacks\n", n)
 	}
 	return parked
 }
